@@ -352,7 +352,9 @@ fn make(tier: &str, seed: u64) -> Vec<Box<dyn Harness>> {
     if thorough {
         adda(vec![0, 1, 2, 3, 4], true, 5);
         adda(vec![0, 1, 2, 3, 4, 5], false, 9);
-        for val in 0..256 {
+        // all 5-node digraphs with loops are 2^25 per root: a seed-rotated 32 of the 256 pinned prefixes per root
+        // (2 x 32 x 2^17 graphs); the full set ran for more than 2.5 hours
+        for val in rotate_subset((0..256usize).collect(), seed, 32) {
             v.push(Box::new(Dom { n: 5, root: 0, split_bits: 8, split_val: val, sparse_seed: 0, free: 0 }));
             v.push(Box::new(Dom { n: 5, root: 3, split_bits: 8, split_val: val, sparse_seed: 0, free: 0 }));
         }
